@@ -472,6 +472,97 @@ def _validity_job(args):
     return n, judged, bad
 
 
+# ------------------------------------------------------------------------------------------------
+# geo-addressed (GBC / GAC) origination lattice: sender inside / outside its own destination area
+# ------------------------------------------------------------------------------------------------
+# Rule (all profiles alike): whatever leaves the sender with basic-header NH = SECURED must decode as EtsiTs103097Data-Signed,
+# be authentic under the common root, satisfy the profile of its kind, carry exactly the GN headers + BTP + facility payload as
+# signed content, and be accepted (SN-VERIFY SUCCESS, payload delivered unchanged) by a peer of the same trust root that lies
+# inside the destination area.  Frames that leave unsecured, or nothing sent at all (SCF buffering), carry no obligation here.
+GEO_TRANSPORTS = [("GBC", 0), ("GBC", 1), ("GBC", 2), ("GAC", 0), ("GAC", 1), ("GAC", 2)]      # circle, rectangle, ellipse
+
+
+def _geo_job(args):
+    (tname, hst), kind, inside, scf = args
+    from flexstack.btp.service_access_point import BTPDataRequest
+    from flexstack.geonet.service_access_point import (Area, PacketTransportType, HeaderType, GeoBroadcastHST, GeoAnycastHST,
+                                                       CommonNH, TrafficClass)
+    p = S.pki()
+    _trust()
+    w = S.SecNet(now=S.T0, rng_seed="c05-geo")
+    a = w.add_secured("A", b"\0\0\0\0\0\x0a", S.make_stack(own="AT1"), lat=41.0, lon=2.0)
+    # area centre: at the sender (inside) or ~2.2 km north of it (outside); the peer B always lies inside the area
+    clat = 41.0 if inside else 41.02
+    b = w.add_secured("B", b"\0\0\0\0\0\x0b", S.make_stack(own="AT2"), lat=clat + 0.0005, lon=2.0)
+    w.connect("A", "B")
+    S.send(w, b, "CAM", b"hello")          # A learns B as a neighbour (with progress towards the area in the outside case)
+    w.quiesce()
+    lab = dict(profile=kind, transport=tname, shape=hst, sender_inside_area=inside, scf=scf, station="A")
+    bad = []
+    pr = S.PROFILES[kind]
+    payload = payload_for(3 + hst, kind)
+    ptt = PacketTransportType(HeaderType.GEOBROADCAST, GeoBroadcastHST(hst)) if tname == "GBC" else \
+        PacketTransportType(HeaderType.GEOANYCAST, GeoAnycastHST(hst))
+    req = BTPDataRequest(btp_type=CommonNH.BTP_B, destination_port=pr["port"], gn_packet_transport_type=ptt,
+                         gn_area=Area(latitude=int(clat * 1e7), longitude=20000000, a=400, b=300, angle=0), data=payload, length=len(payload),
+                         security_profile=pr["profile"], its_aid=pr["psid"], traffic_class=TrafficClass().set_scf(scf))
+    w.sent.clear()
+    b.gn_indications.clear()
+    b.btp_indications.clear()
+    b.stack.verify.log.clear()
+    a.refresh()
+    try:
+        w.call(a.btp.btp_data_request, req)
+    except Exception as e:  # noqa: BLE001
+        return lab, "raised", [dict(kind="emit_failed", psid=pr["psid"], exc=type(e).__name__, **lab)]
+    frames = [f for (src, f) in w.sent if src == "A"]
+    if not frames:
+        return lab, "nothing_sent", []
+    secured = [f for f in frames if (f[0] & 0x0F) == G.BNH_SECURED]
+    if not secured:
+        return lab, "left_unsecured", []
+    if len(frames) != 1:
+        bad.append(dict(kind="emit_count", n=len(frames), **lab))
+    frame = secured[0]
+    v = CC.classify(frame[4:], TRUST, {p.h8("AT1"): p.d("AT1")})
+    if not v.authentic:
+        bad.append(dict(kind="profile_not_signed" if v.why in ("undecodable",) or str(v.why).startswith(("not_signed", "structure")) else "profile_signature",
+                        why=v.why, **lab))
+    else:
+        hi = v.header or {}
+        keys = set(hi)
+        miss = MANDATORY[kind] - keys
+        forb = keys & ALWAYS_FORBIDDEN
+        if ALLOWED_EXTRA[kind] is not None:
+            forb |= keys - MANDATORY[kind] - ALLOWED_EXTRA[kind]
+        if miss:
+            bad.append(dict(kind="profile_header_missing", fields=sorted(miss), **lab))
+        if forb:
+            bad.append(dict(kind="profile_header_forbidden", fields=sorted(forb), **lab))
+        if hi.get("psid") != pr["psid"]:
+            bad.append(dict(kind="profile_psid", got=hi.get("psid"), want=pr["psid"], **lab))
+        if kind == "DENM" and v.signer_kind != "certificate":
+            bad.append(dict(kind="profile_signer", need="certificate", why="denm", **lab))
+        try:
+            ref = G.parse(bytes([(frame[0] & 0xF0) | G.BNH_COMMON]) + frame[1:4] + v.payload)
+            ok_pl = ref["kind"] == tname.lower() and ref["payload"][4:] == payload and int.from_bytes(ref["payload"][0:2], "big") == pr["port"]
+        except Exception:  # noqa: BLE001
+            ok_pl = False
+        if not ok_pl:
+            bad.append(dict(kind="profile_payload", **lab))
+    try:
+        w.quiesce()
+    except Exception as e:  # noqa: BLE001
+        bad.append(dict(kind="receive_exception", exc=type(e).__name__, **lab))
+    log = [c for (m, c, e) in b.stack.verify.log if m == frame[4:]]
+    ok_verify = bool(log) and log[-1] is not None and log[-1].report == ReportVerify.SUCCESS
+    ok_btp = any(port == pr["port"] and bytes(bi.data) == payload for port, bi in b.btp_indications)
+    if not (ok_verify and ok_btp):
+        bad.append(dict(kind="honest_rejected", receiver="B", carried_certificate=(v.signer_kind == "certificate"),
+                        report=(log[-1].report.name if log and log[-1] is not None else "none"), verify_ok=ok_verify, **lab))
+    return lab, "secured_sent", bad
+
+
 def run(ctx):
     thorough = ctx.tier == "thorough"
     rnd = random.Random(ctx.seed)
@@ -551,6 +642,19 @@ def run(ctx):
     ctx.parts["validity_lattice"] = dict(evaluations=n_val, judged_must_accept=n_judged, boundaries=["start", "end"],
                                          offsets=[o[0] for o in OFFSETS], sequences=[list(q) for q in SEQUENCES])
     n_aid += n_val
+    gjobs = [(t, k, ins, scf) for t in GEO_TRANSPORTS for k in ("DENM", "CAM", "GEN") for ins in (True, False) for scf in (False, True)]
+    geo = {}
+    with mp.Pool(16) as pool:
+        for lab, outcome, bad in pool.imap_unordered(_geo_job, gjobs):
+            key = f"{outcome}:{'inside' if lab['sender_inside_area'] else 'outside'}"
+            geo[key] = geo.get(key, 0) + 1
+            for rec in bad:
+                rec["config"] = "geo_lattice"
+                ctx.violation(rec, replay=dict(part="geo", transport=[lab["transport"], lab["shape"]], profile=lab["profile"],
+                                               inside=lab["sender_inside_area"], scf=lab["scf"]))
+    ctx.parts["geo_lattice"] = dict(evaluations=len(gjobs), outcomes=geo, transports=[list(t) for t in GEO_TRANSPORTS],
+                                    profiles=["DENM", "CAM", "GEN"], placements=["inside", "outside"], scf=[False, True])
+    n_aid += len(gjobs)
     ctx.coverage.update(
         states=states, transitions=trans + 3 * n_probes + 2 * n_aid, traces_validated_against_impl=trans + 3 * n_probes + 2 * n_aid,
         evaluations=n_aid, probes=n_probes, distinct_pair_states=n_pairs, probe_memo_crosschecks=n_memo_x,
@@ -575,6 +679,10 @@ def replay(path):
     rec = json.load(open(path))
     print(json.dumps(rec["violation"], indent=1))
     rp = rec["replay"]
+    if rp.get("part") == "geo":
+        lab, outcome, bad = _geo_job((tuple(rp["transport"]), rp["profile"], rp["inside"], rp["scf"]))
+        print(lab, outcome, bad or "ok")
+        return 1 if bad else 0
     if rp.get("part") == "validity":
         bad = []
         for off in OFFSETS:
